@@ -11,3 +11,5 @@ func init() {
 		return nil, false
 	}
 }
+
+func rawTimesSeen() int { return codec.RawTimes }
